@@ -89,7 +89,9 @@ func checkCmd(args []string) {
 	repo := fs.String("repo", "/repo", "repository")
 	verbose := fs.Bool("v", false, "verbose")
 	noEv := fs.Bool("no-evidence", false, "do not rewrite the evidence file (used when evaluating seeded changes)")
+	outName := fs.String("out", "", "name of the scratch directory under /verif/out (default: the property id)")
 	fs.Parse(args)
+	outOverride = *outName
 	if *tier == "" {
 		*tier = os.Getenv("VERIF_TIER")
 	}
@@ -158,6 +160,8 @@ func loadBaseline(id string) map[string]bool {
 }
 
 // runCheck runs one property check. overlay (may be nil) replaces files in memory (self-test mutants).
+var outOverride, curOutDir string
+
 func runCheck(id, tier string, seed int, repo string, overlay map[string][]byte, updateBaseline, verbose bool, w io.Writer, evidence bool) (int, *checkOutcome) {
 	noEvidence = !evidence
 	outcome := &checkOutcome{}
@@ -193,6 +197,10 @@ func runCheck(id, tier string, seed int, repo string, overlay map[string][]byte,
 	if noEvidence {
 		outDir = filepath.Join(verifDir, "out", "selftest", id)
 	}
+	if outOverride != "" {
+		outDir = filepath.Join(verifDir, "out", outOverride)
+	}
+	curOutDir = outDir
 	os.RemoveAll(outDir)
 	os.MkdirAll(outDir, 0o755)
 
@@ -583,7 +591,7 @@ func writeReplay(id string, o *Obligation, r SolveResult, eng *Engine, cfg *Prop
 	}
 	os.MkdirAll(dir, 0o755)
 	path := filepath.Join(dir, sanitizeFile(o.Name)+".json")
-	smt := filepath.Join(verifDir, "out", id, sanitizeFile(o.Name)+".smt2")
+	smt := filepath.Join(curOutDir, sanitizeFile(o.Name)+".smt2")
 	rp := map[string]any{
 		"property":   id,
 		"obligation": o.Name,
